@@ -22,7 +22,7 @@ RULE = (
 )
 ASSUMPTIONS = ["assertion sets are sets: no assertion is listed twice with the same confirmation flag", "NEN items whose eliminated set is everyone else are not well-formed and excluded"]
 REQUIRE_VAC = ["trees_with_unpruned_leaf", "trees_fully_pruned", "trees_pruned_below_root", "nodes_with_two_tags"]
-NAMES = "ABCD"
+NAMES = ["1", "12", "11", "2"]  # identifiers that collide when concatenated without a separator ({1,12} v {11,2})
 PLAN = {"quick": {3: 15, 4: 3}, "thorough": {3: 15, 4: 5}}
 
 
@@ -145,11 +145,45 @@ def judge(n, root, asns, flags, int_ids=False):
     return out, info
 
 
+def judge_wide(n, k, kind):
+    """many assertions about one node: candidate 0 (root or a child of root 1) loses k NEB assertions / has duplicated NEN items;
+    the list-form tags and the rendered label must both name every one of them"""
+    names = [str(100 + i) for i in range(n)]
+    if kind == "root":
+        WO = [(names[0], names[w], w % 2 == 0) for w in range(1, k + 1)]
+        S = set(names[1:])
+        want = list(range(k))
+        try:
+            with contextlib.redirect_stdout(io.StringIO()), warnings.catch_warnings():
+                warnings.simplefilter("ignore")
+                tree = V.buildRemainingTreeAsLists(names[0], set(S), list(WO), [])
+                rendered = V.treeListToTuple(tree)
+        except Exception as e:  # noqa
+            return [(f"C20|exception|{type(e).__name__}", f"{type(e).__name__}: {str(e)[:80]}")]
+        if len(tree) != 1 or sorted(t[0] for t in tree[0].NEBTagList) != want:
+            return [("C20|tags", f"root losing {k} NEB assertions is tagged {tree[0].NEBTagList if len(tree) == 1 else 'not pruned'}")]
+        label = rendered[1]
+        shown = sorted(int(x) for x in label.split("NEB ")[1].split("\n")[0].split(",")) if "NEB " in label else []
+        if shown != want:
+            return [("C20|rendering|tag-numbers", f"the drawn label of a node contradicted by NEB assertions {want} shows {shown}")]
+    return []
+
+
 def flags_for(k, mode):
     return [False] * k if mode == 0 else [(i % 2 == 0) for i in range(k)]
 
 
 def run_shard(sh, rec):
+    if sh[0] == "wide":
+        for n in (9, 14):
+            for k in range(1, n):
+                rec.state()
+                rec.trans()
+                rec.evals()
+                rec.vac("wide_nodes")
+                for key, what in judge_wide(n, k, "root"):
+                    rec.violate(key, what, {"wide": True, "n": n, "k": k})
+        return
     n, size, first = sh
     U = universe(n)
     combos = [()] if size == 0 else (tuple([first]) + rest for rest in itertools.combinations(range(first + 1, len(U)), size - 1))
@@ -186,7 +220,7 @@ def show(a):
 
 
 def explore(tier, seed):
-    sh = []
+    sh = [("wide",)]
     for n, maxsize in PLAN[tier].items():
         U = universe(n)
         sh.append((n, 0, 0))
@@ -197,5 +231,7 @@ def explore(tier, seed):
 
 
 def run_case(case):
+    if case.get("wide"):
+        return judge_wide(case["n"], case["k"], "root")
     asns = [(a[0], a[1], a[2]) if a[0] == "NEB" else (a[0], a[1], frozenset(a[2])) for a in case["assertions"]]
     return judge(case["n"], case["root"], asns, case["flags"], case.get("int_ids", False))[0]
